@@ -478,6 +478,8 @@ def finding_signature(pid, c, fail):
         return "rosenbrock:nonfinite_with_time_step_below_round_off"
     if pid == "C10" and m.get("integ") == 0 and m.get("inf_not_consumed"):
         return "rosenbrock:inf_in_species_not_consumed"
+    if pid == "C16" and fail.startswith("three-argument Solve overload: data race on the shared solver's stored parameters"):
+        return "tsan:three_argument_solve_stores_parameters"
     if pid == "C20" and fail.startswith("SetAbsoluteTolerances accepted a vector of the wrong length"):
         return "state:absolute_tolerances_wrong_length"
     return (c.kind or "") + ":" + fail.split(":")[0][:60]
@@ -2243,6 +2245,26 @@ def special_c16(tier, seed):
             fails.append((f"shared-solver driver exited with {r.returncode}", {"cmd": f"{exe} {sd} {threads} {rounds}", "stderr": r.stderr[-1500:]}, True))
         if len(lines) < 5 and r.returncode == 0:
             fails.append(("shared-solver driver produced fewer configurations than expected", {"stdout": r.stdout[-500:]}, False))
+    # the documented three-argument overload Solve(time_step, state, parameters) stores the parameters in the shared
+    # solver object (known finding KF-C16-1): run it under TSan too, so that the finding stays reproducible and any
+    # OTHER race in that mode is still reported
+    for q, (threads, rounds) in enumerate([(4, 3)] if tier == "quick" else [(2, 4), (4, 4), (8, 3)]):
+        sd = seed * 100 + 50 + q
+        r = subprocess.run([exe, str(sd), str(threads), str(rounds), "3arg"], capture_output=True, text=True,
+                           env=dict(os.environ, TSAN_OPTIONS="halt_on_error=0 report_signal_unsafe=0"), timeout=600)
+        lines = [l for l in r.stdout.splitlines() if l.startswith("tsan ")]
+        n += len(lines)
+        dist["three_arg_solve threads=%d" % threads] = len(lines)
+        if "ThreadSanitizer" in r.stderr:
+            reports = r.stderr.split("WARNING: ThreadSanitizer:")[1:]
+            known = [rep for rep in reports if "solver.hpp" in rep and ("::Solve(double" in rep) and ("GetState" in rep or rep.count("::Solve(double") >= 2 or "solver_parameters" in rep)]
+            other = [rep for rep in reports if rep not in known]
+            if known:
+                fails.append((f"three-argument Solve overload: data race on the shared solver's stored parameters ({len(known)} ThreadSanitizer report(s), {threads} threads)",
+                              {"cmd": f"{exe} {sd} {threads} {rounds} 3arg", "report": known[0][:2500]}, True))
+            for rep in other[:2]:
+                fails.append((f"ThreadSanitizer: {rep.splitlines()[0].strip()} with {threads} threads using the three-argument Solve",
+                              {"cmd": f"{exe} {sd} {threads} {rounds} 3arg", "report": rep[:2500]}, True))
     # source scan: shared mutable state reachable from the CPU solver headers
     allow = {"profiler/instrumentation.hpp"}
     pat = re.compile(r"\bmutable\b|const_cast|\bthread_local\b|^\s*static\s+(?!constexpr|const\b|inline\s+const|_assert)[A-Za-z_:<>,\s\*&]+\s+[A-Za-z_]\w*\s*(=|;|\{)")
